@@ -53,6 +53,10 @@ inductive Ref
   | form (name : String)   -- a Form object (module singleton)
   | frame (f : Fr)         -- a Frame object (registry singleton)
   | addr (a : Nat)         -- a mutable object
+  /-- an `Infos` helper object (created by the `infos` getter, kept in `_data`): `owner` is the state vector its `orb` attribute is
+  bound to, `gen` the address of the marker cell allocated at its creation (its identity). A WEAK reference: it is not
+  followed by `refsOf`, so the separation theorems do not speak about it — what the getter hands out has its own theorem -/
+  | infos (owner gen : Nat)
 deriving DecidableEq, Repr
 
 inductive Cell
@@ -405,6 +409,18 @@ def deepRef : Nat → DState → Ref → DState × Option Ref
   | fuel + 1, st, r =>
     match r with
     | .frame f => ((cloneFr st f).1, some (.frame (cloneFr st f).2))
+    | .infos o g =>
+      -- pickle / deepcopy duplicate the helper together with the object it is bound to (memo): the duplicate is bound to the duplicate
+      -- the helper itself goes through the memo (keyed by its marker cell): the object it is bound to usually holds it too
+      match st.m.lookup g with
+      | some g' =>
+        match deepRef fuel st (.addr o) with
+        | (st2, some (.addr o')) => (st2, some (.infos o' g'))
+        | (st2, _) => (st2, none)
+      | none =>
+        match deepRef fuel { st with h := st.h ++ [.clone], m := (g, st.h.length) :: st.m } (.addr o) with
+        | (st2, some (.addr o')) => (st2, some (.infos o' st.h.length))
+        | (st2, _) => (st2, none)
     | .addr a =>
       match st.m.lookup a with
       | some a' => (st, some (.addr a'))
@@ -683,6 +699,33 @@ def addMan (h : Heap) (a : Nat) (t : Nat) : Res Unit :=
       let (h, m) := alloc h (.man t)
       (write h l (.list (ms ++ [.addr m])), .ok ())
     | _ => (h, .error .bad)
+
+/-! ### the `infos` getter: a helper object created on read access and kept in `_data` -/
+
+/-- the cache test of the `infos` getter, read from the AST on every run: `never` — `not hasattr(self, <a name that is no attribute>)`,
+always true, a new helper is created on every access; `inData` — `"infos" not in self._data`, the stored helper is handed out -/
+inductive InfosTest
+  | never | inData
+deriving DecidableEq, Repr
+
+def infosTest : InfosTest := if FormTables.infosCacheTest = "inData" then .inData else .never
+
+/-- `sv.infos`: returns (heap, owner the returned helper is bound to) -/
+def getInfos (t : InfosTest) (h : Heap) (a : Nat) : Heap × Option Nat :=
+  match getSV h a with
+  | none => (h, none)
+  | some s =>
+    match t, lookup "infos" s.items with
+    | .inData, some (.infos o _) => (h, some o)
+    | _, _ =>
+      let (h, g) := alloc h .clone
+      (write h s.data (.dict (insert "infos" (.infos a g) s.items)), some a)
+
+/-- `sv.infos.kep` … : a read access -/
+def readInfos (h : Heap) (a : Nat) : Res Unit :=
+  match getInfos infosTest h a with
+  | (h, some _) => (h, .ok ())
+  | (h, none) => (h, .error .bad)
 
 /-! ### in-place changes of free metadata containers (through `sv.<key>`, i.e. `__getattr__`) -/
 
